@@ -6,11 +6,11 @@ VS = 'F__ZNK16QXmppDiscoveryIq18verificationStringEv'
 # every loop of verificationString walks a list of at most 3 elements (identities 2, features 3, fields 3, keys 2): bound 4
 # (a list whose length is symbolic would otherwise be walked up to the global bound through slots that hold no element)
 VS_UW = ['%s.%d:4' % (VS, k) for k in range(10)]
-def I(name, entry, n=(), **kw):
-    cd = {'C20_HAVE_IDLESS': 1}
+def I(name, entry, n=(), idless=True, **kw):
+    cd = {'C20_HAVE_IDLESS': 1} if idless else {}   # identityLessThan is only linked where verificationString() is reachable
     for k, v in enumerate(n):
         if v is not None: cd['C_N%d' % k] = v
-    d = dict(name=name, entry=entry, cdefs=cd, unwindset=list(VS_UW), unwind=9, timeout_s=400, mem_gb=6, solver='cadical', tiers=('quick', 'thorough'), bound=''); d.update(kw); return d
+    d = dict(name=name, entry=entry, cdefs=cd, unwindset=list(VS_UW), unwind=9, timeout_s=400, mem_gb=3, solver='cadical', tiers=('quick', 'thorough'), bound=''); d.update(kw); return d
 B_ID = 'identities: 4 fields each 0..2 units over {a,b,B}'
 SPEC = dict(
     property='C20',
@@ -20,10 +20,10 @@ SPEC = dict(
             I('idfeat_ref_2_0', 'h_idfeat_ref', (2, 0), bound='2 identities, no feature'),
             I('idfeat_ref_1_1', 'h_idfeat_ref', (1, 1), bound='1 identity, 1 feature'),
             I('idfeat_ref_0_3', 'h_idfeat_ref', (0, 3), bound='no identity, 3 features (duplicates allowed)'),
-            I('idfeat_ref_2_3', 'h_idfeat_ref', (2, 3), tiers=('thorough',), timeout_s=900, bound='2 identities, 3 features (duplicates allowed)'),
+            I('idfeat_ref_2_3', 'h_idfeat_ref', (2, 3), mem_gb=5, tiers=('thorough',), timeout_s=900, bound='2 identities, 3 features (duplicates allowed)'),
             # (i)+(iii) two inputs hash the same string iff equal as sets / multisets; n = (|A|, |B|, shared identities)
-            I('feat_iff_3_3', 'h_feat_iff', (3, 3, 1), bound='feature lists of 3 and 3 after one arbitrary identity'),
-            I('feat_iff_3_2', 'h_feat_iff', (3, 2, 1), tiers=('thorough',), timeout_s=900, bound='feature lists of 3 and 2 after one arbitrary identity'),
+            I('feat_iff_3_3', 'h_feat_iff', (3, 3, 1), mem_gb=5, bound='feature lists of 3 and 3 after one arbitrary identity'),
+            I('feat_iff_3_2', 'h_feat_iff', (3, 2, 1), mem_gb=5, tiers=('thorough',), timeout_s=900, bound='feature lists of 3 and 2 after one arbitrary identity'),
             I('feat_iff_3_1', 'h_feat_iff', (3, 1, 0), bound='feature lists of 3 and 1, no identity'),
             I('id_iff_2_2', 'h_id_iff', (2, 2), bound='identity lists of 2 and 2'),
             I('id_iff_2_1', 'h_id_iff', (2, 1), bound='identity lists of 2 and 1'),
@@ -32,24 +32,40 @@ SPEC = dict(
             I('form_ref_1m_ftlast', 'h_form_ref', (1, 0, 2, 0, 1, 1, 1, 1), bound='one list-multi field with 2 values, FORM_TYPE after it'),
             I('form_ref_1m_1', 'h_form_ref', (1, 0, 1, 0, 1, 1, 0, 1), bound='FORM_TYPE + one list-multi field with 1 value'),
             I('form_ref_1m_0', 'h_form_ref', (1, 0, 0, 0, 1, 1, 0, 1), bound='FORM_TYPE + one list-multi field with an empty value list'),
-            I('form_ref_1s_n', 'h_form_ref', (1, 0, None, 0, 1, 1, 0, 0), bound='FORM_TYPE + one text-single field with 0..1 value'),
-            I('form_ref_2s', 'h_form_ref', (1, 0, 1, 1, 2, 1, 2, 0), bound='two text-single fields, FORM_TYPE last'),
+            I('form_ref_1s_1', 'h_form_ref', (1, 0, 1, 0, 1, 1, 0, 0), bound='FORM_TYPE + one text-single field with a value of 0..2 units'),
+            I('form_ref_1s_n', 'h_form_ref', (1, 0, None, 0, 1, 1, 0, 0), mem_gb=5, tiers=('thorough',), timeout_s=900, bound='FORM_TYPE + one text-single field with 0..1 value (unset QVariant included)'),
+            I('form_ref_2s', 'h_form_ref', (1, 0, 1, 1, 2, 1, 2, 0), mem_gb=5, bound='two text-single fields, FORM_TYPE last'),
             I('form_ref_noft', 'h_form_ref', (1, 1, 1, 0, 1, 0, 0, 0), bound='form without FORM_TYPE (ignored)'),
             I('form_ref_1s_empty', 'h_form_empty_value', (), bound='FORM_TYPE + one text-single field with the empty value (regression for fix 13f5df9)'),
         ]),
         dict(name='mgr', harness='h_mgr.cpp', tus=['src/base/QXmppDataForm.cpp', 'src/base/QXmppDiscoveryIq.cpp', 'src/base/QXmppIq.cpp', 'src/base/QXmppStanza.cpp', 'src/client/QXmppClient.cpp'],
-             models=MODELS + ['c20_mgr_models.c'], cxxdefs={'C20_REPLY_HASH': 1}, loop_bounds={}, instances=[
-            # n = (identities, features) of the arbitrary info set returned by the cut capabilities()
-            I('handle_info_nonode', 'h_handle_info', (1, 2, 0), bound='info set with 1 identity and 2 features; query without node'),
-            I('handle_info_prefix', 'h_handle_info', (1, 2, 1), bound='info set with 1 identity and 2 features; node "abB" under capabilities node "ab"'),
-            I('handle_info_foreign', 'h_handle_info', (1, 2, 3), bound='node "ba" under capabilities node "ab": refused'),
-            I('presence_caps_1_2', 'h_presence_caps', (1, 2), bound='info set with 1 identity and 2 features'),
-            I('presence_caps_1_0', 'h_presence_caps', (1, 0), bound='info set with 1 identity'),
-            I('presence_caps_1_1', 'h_presence_caps', (1, 1), bound='info set with 1 identity and 1 feature'),
-            I('handle_info_nonode_1_0', 'h_handle_info', (1, 0, 0), bound='info set with 1 identity; query without node'),
+             models=MODELS + ['c20_mgr_models.c'], cxxdefs={}, loop_bounds={}, instances=[
+            # n = (identities, features of the arbitrary info set returned by the cut capabilities(), node scenario)
+            I('handle_info_nonode', 'h_handle_info', idless=False, n=(1, 2, 0), bound='info set with 1 identity and 2 features; query without node'),
+            I('handle_info_prefix', 'h_handle_info', idless=False, n=(1, 2, 1), bound='info set with 1 identity and 2 features; node "abB" under capabilities node "ab"'),
+            I('handle_info_emptycap', 'h_handle_info', idless=False, n=(1, 2, 2), bound='info set with 1 identity and 2 features; node "b", empty capabilities node'),
+            I('handle_info_foreign', 'h_handle_info', idless=False, n=(1, 2, 3), bound='node "ba" under capabilities node "ab": refused with item-not-found'),
+            I('presence_caps_1_0', 'h_presence_caps', (1, 0), mem_gb=5, bound='info set with 1 identity; capabilities node 0..2 units'),
+            I('presence_caps_1_1', 'h_presence_caps', (1, 1), tiers=('thorough',), timeout_s=900, mem_gb=10, bound='info set with 1 identity and 1 feature'),
         ]),
     ],
-    bounds=['strings: 0..2 UTF-16 units over the alphabet {a, b, B}', '<= 2 identities (category/type/lang/name), <= 3 features with duplicates, optional form with FORM_TYPE (any position) and <= 2 further fields with <= 2 values',
-            'list lengths are fixed per instance (case split), contents symbolic', 'std::sort ranges <= 3 elements'],
-    assumptions=[], outside=[],
+    bounds=['strings: 0..2 UTF-16 units over the alphabet {a, b, B} (ASCII, no "<" and no "/")',
+            'info set: <= 2 identities (category/type/lang/name), <= 3 features with duplicates, optional form with FORM_TYPE (any position) and <= 2 further fields (text-single or list-multi, <= 2 values, unset / empty values included)',
+            'list lengths, field kinds and the FORM_TYPE position are fixed per instance (case split over the instances listed); all contents are symbolic',
+            'quick tier: identity/feature string vs reference for (identities,features) in {(2,0),(1,1),(0,3)}, (2,3) in the thorough tier; forms with one field, or with two text-single fields',
+            'std::sort ranges <= 3 elements, QString model capacity 40 units, comparison/append loops capped at 10 units (asserted)',
+            'manager/client half: capabilities() returns an arbitrary info set with <= 1 identity and <= 2 features (handleIq) resp. 1 identity, <= 1 feature (presence); node texts of the handleIq scenarios are concrete ("", "abB" under "ab", "b" under "", "ba" under "ab")'],
+    assumptions=['the hash is a recording oracle (QCryptographicHash model): properties are statements about the octet string handed to SHA-1, digests are fresh symbolic bytes, equal inputs give the same digest block',
+                 'reference = XEP-0115 5.1 on the data the form would serialise: a text-single field with an empty or unset value has no <value/> (QXmppDataForm::toXml), a list-multi field has one <value/> per list entry',
+                 'XEP-0004: field names (var) are unique within a form and FORM_TYPE is reserved (assumed for the symbolic field names)',
+                 'std::sort (libstdc++ __insertion_sort for <= 16 elements) is a transcribed model working on the slot words with concrete positions; it performs the same comparator calls; the comparator identityLessThan is the real code',
+                 'QList<T>::dealloc and the destructors of the private data blocks are skipped (no memory-reclamation claim); QMap<QString,Field> is an array-backed class-level model; QVariant is restricted to Invalid/QString/QStringList',
+                 'manager/client half: QXmppDiscoveryManager::capabilities() is cut (returns the same arbitrary info set on every call); QXmppClient::extensions() returns exactly the discovery manager; stanza ids are arbitrary text'],
+    outside=['characters outside ASCII (Qt orders UTF-16 code units, XEP-0115 octets: surrogate pairs sort differently) and the separator characters "<" and "/" inside the data (XEP-0115 itself is ambiguous/forbids them)',
+             'lists longer than 3, strings longer than 2 units, two list-multi fields or a list-multi plus a text-single field in one form (no verdict within 6 GB), duplicate field names (QMap keeps the last one)',
+             'boolean / jid / other QVariant value types of form fields (note by reading, not solver-checked: a boolean field is hashed as "true"/"false" but serialised as "1"/"0")',
+             'FORM_TYPE field not of type hidden (XEP: ignore the form; the code does not look at the field type), more than one extension form (QXmppDiscoveryIq holds one)',
+             'QXmppDiscoveryManager::capabilities() itself (assembly from QXmppClientPrivate::discoveryFeatures() - about 20 namespaces - and the extensions, QObject plumbing): cut; that handleIq answers and addProperCapability use the SAME capabilities() is what is checked',
+             'the reply is not re-hashed inside the handleIq harness (no verdict in 400 s); equality of its identities, features and form with capabilities() is asserted instead and group vs shows the hash input is a function of exactly these',
+             'serialisation of the answer and of the presence to XML (base64 of ver, duplicate <feature/> elements in the answer are not removed although the hash ignores duplicates)'],
 )
